@@ -429,7 +429,7 @@ theorem dset_absent (d : Dict) (k v : Str) (h : k ∉ d.map (·.1)) : dset d k v
     have : ¬ a1 = k := fun e => h.1 e.symm
     simp [dset, this, ih h.2]
 
-theorem lookup_absent (d : Dict) (k : Str) (h : k ∉ d.map (·.1)) : d.lookup k = none := by
+theorem lookup_absent {β} (d : List (Str × β)) (k : Str) (h : k ∉ d.map (·.1)) : d.lookup k = none := by
   induction d with
   | nil => rfl
   | cons a as ih =>
@@ -438,9 +438,27 @@ theorem lookup_absent (d : Dict) (k : Str) (h : k ∉ d.map (·.1)) : d.lookup k
     have hb : (k == a1) = false := by simpa using h.1
     simp [List.lookup, hb, ih h.2]
 
-theorem fold_distinct (items : List (Str × Str)) (d : Dict)
+theorem vset_absent (d : VDict) (k : Str) (v : List Str) (h : k ∉ d.map (·.1)) : vset d k v = d ++ [(k, v)] := by
+  induction d with
+  | nil => rfl
+  | cons a as ih =>
+    obtain ⟨a1, a2⟩ := a
+    simp only [List.map_cons, List.mem_cons, not_or] at h
+    have : ¬ a1 = k := fun e => h.1 e.symm
+    simp [vset, this, ih h.2]
+
+/-- the values kept for a name spelled once: its trimmed value, unless empty -/
+def once (v : Str) : List Str := if (strip v).isEmpty then [] else [strip v]
+
+theorem joinNl_once (v : Str) : Model.Email.joinNl (once v) = strip v := by
+  unfold once
+  cases h : (strip v).isEmpty with
+  | true => simp only [if_true, Model.Email.joinNl]; exact (List.isEmpty_iff.mp h).symm
+  | false => simp [Model.Email.joinNl]
+
+theorem fold_distinct (items : List (Str × Str)) (d : VDict)
     (hlen : (dd (d.map (·.1)) (items.map keyOf)).length = d.length + items.length) :
-    items.foldl mergeStep d = d ++ items.map (fun nv => (keyOf nv, strip nv.2)) := by
+    items.foldl mergeStep d = d ++ items.map (fun nv => (keyOf nv, once nv.2)) := by
   induction items generalizing d with
   | nil => simp
   | cons nv rest ih =>
@@ -457,14 +475,19 @@ theorem fold_distinct (items : List (Str × Str)) (d : Dict)
     have hnm : keyOf nv ∉ d.map (·.1) := by simpa using hnot
     rw [hnot] at hlen
     simp only [Bool.false_eq_true, if_false] at hlen
-    have hstep : mergeStep d nv = d ++ [(keyOf nv, strip nv.2)] := by
+    have hstep : mergeStep d nv = d ++ [(keyOf nv, once nv.2)] := by
       unfold mergeStep
       simp only
       have : d.lookup (strip (lowerAscii nv.1)) = none := lookup_absent d _ hnm
       rw [this]
-      exact dset_absent d _ _ hnm
+      have hv : (if (strip nv.2).isEmpty || ((none : Option (List Str)).getD []).contains (strip nv.2) then (none : Option (List Str)).getD []
+          else (none : Option (List Str)).getD [] ++ [strip nv.2]) = once nv.2 := by
+        unfold once
+        cases (strip nv.2).isEmpty <;> simp
+      rw [hv]
+      exact vset_absent d _ _ hnm
     simp only [List.foldl_cons, hstep]
-    rw [ih (d ++ [(keyOf nv, strip nv.2)]) (by
+    rw [ih (d ++ [(keyOf nv, once nv.2)]) (by
       simp only [List.map_append, List.map_cons, List.map_nil, List.length_append, List.length_singleton, dd]
       rw [hlen]; omega)]
     simp [List.append_assoc]
@@ -474,7 +497,11 @@ theorem mergeItems_distinct (items : List (Str × Str))
     mergeItems items = items.map (fun nv => (keyOf nv, strip nv.2)) := by
   unfold mergeItems
   have := fold_distinct items [] (by simpa using hlen)
-  simpa using this
+  rw [this]
+  simp only [List.nil_append, List.map_map]
+  apply List.map_congr_left
+  intro nv _
+  simp only [Function.comp, joinNl_once]
 
 
 /-! ### one paragraph -/
